@@ -22,6 +22,7 @@
 
 from collections.abc import Iterable
 import datetime
+import urllib.parse
 import decimal
 from typing import AbstractSet
 
@@ -152,7 +153,9 @@ def dict_to_cgi_params(params: dict[str, str]) -> str:
     keys.sort()
     lst = []
     for name in keys:
-        val = params[name]
+        # values are URL-encoded, so that '&', '+', '#', '%' or a space inside a
+        # value cannot change the meaning of the query string
+        val = urllib.parse.quote(str(params[name]), safe=':/,=')
         lst.append(f'{name}={val}')
     return '?' + '&'.join(lst)
 
